@@ -14,6 +14,7 @@ import zipfile
 
 from verif.gen import biff8, cfb, htmlfam, mail, odf, ooxml, pdfw, plain, pptbin, rtf, sevenz, tarforge, zipforge
 from verif.gen.tokens import Tokens
+from verif.props import c01_pdfenc
 
 FIXTURE_DIR = "/repo/sharepoint2text/tests/resources"
 
@@ -170,7 +171,7 @@ def _sheet_doc(tk):
 
 
 def build_g() -> dict:
-    """name -> {"ext", "to", "data", optional views: "zip": members, "cfb": (streams, opts), "rec": {stream: kind}}"""
+    """name -> {"ext", "to", "data", optional views: "zip": members, "cfb": (streams, opts), "rec": {stream: kind}, "pdfenc": seed}"""
     if "g" in _CACHE:
         return _CACHE["g"]
     tk = Tokens(0)
@@ -206,6 +207,10 @@ def build_g() -> dict:
     add("rtf", "rtf", rtf.rtf(_text_doc(tk, "j"), {"j": (jpg, "jpeg")}))
     add("pdf", "pdf", pdfw.pdf(["doc", {"title": "Ztitle"}, [["unit", [["p", [["t", tk.new("B")]]], ["img", "j"]], {}],
                                                               ["unit", [["p", [["t", tk.new("B")]]]], {}]]], {"j": (jpg, "jpeg")}))
+    # PDFs encrypted for the empty password (a reader decrypts them unasked): RC4-128, AES-128 (AESV2), AES-256 (AESV3, revision 5);
+    # the "pdfenc" view lets the container-aware operators forge encryption-dictionary fields consistently (c01_pdfenc)
+    for es in c01_pdfenc.SEEDS:
+        add("pdf-" + es, "pdf", c01_pdfenc.build(es), pdfenc=es)
     add("txt", "txt", plain.txt(_text_doc(tk, None, table=False, meta=False)))
     add("csv", "csv", plain.csv(["doc", {}, [_sheet_doc(tk)[2][0]]]))
     add("md", "md", plain.md(["doc", {}, [["unit", [["h", 1, [["t", tk.new("H")]]], ["p", [["t", tk.new("B")]]],
